@@ -81,11 +81,12 @@ F20_Leafs(t) == CASE t = "Q" -> { SelA("", "f", <<[n |-> "y", v |-> IntV("2")]>>
                                   SelA("g", "f", <<[n |-> "y", v |-> VarRef("i1")]>>) }
                   [] t = "O" -> { Sel("", "x"), Sel("k", "x") }
                   [] t = "I" -> { Sel("", "x") }
+                  [] t = "IT" -> { Sel("", "x") }      \* an interface without ResolveType: its implementers' IsTypeOf decide
                   [] t = "A" -> { Sel("", "p") }
                   [] t = "SR" -> { SelA("", "r", <<[n |-> "y", v |-> IntV("2")]>>),
                                    SelA("k", "r", <<[n |-> "e", v |-> EnumV("RED")]>>) }
                   [] OTHER -> {}
-F20_Comps(t) == CASE t = "Q" -> { Sel("", "l"), Sel("", "ll"), Sel("", "il"), Sel("m", "l"), Sel("", "srl") }
+F20_Comps(t) == CASE t = "Q" -> { Sel("", "l"), Sel("", "ll"), Sel("", "il"), Sel("m", "l"), Sel("", "srl"), Sel("", "itl") }
                   [] t = "O" -> { Sel("", "z") }
                   [] OTHER -> {}
 F20_Inlines(t) == IF t = "I" THEN { "A" } ELSE {}
